@@ -574,6 +574,55 @@ def init_shape(cls):
     expect(sorted(seen) == sorted(list(STORAGE) + ['fp']), 'constructor: storages')
 
 
+def factory_shapes(repo):
+    """X.make(...) = constructor(*args, **kwargs) followed only by registered
+    customisation callables applied to the new object (effects, types); the
+    attribute factory adds nothing."""
+    def make_of(rel, cname):
+        return find_func(find_class(parse(repo, rel), cname), 'make')
+
+    def ctor_call(st, var, cls_expr, extra_first=None):
+        expect(isinstance(st, ast.Assign) and dotted(st.targets[0]) == var and
+               isinstance(st.value, ast.Call) and dotted(st.value.func) == cls_expr,
+               'factory: %s = %s(...) shape' % (var, cls_expr))
+        args = st.value.args
+        if extra_first:
+            expect(len(args) == 2 and dotted(args[0]) == extra_first, 'factory: first argument')
+            args = args[1:]
+        expect(len(args) == 1 and isinstance(args[0], ast.Starred) and
+               dotted(args[0].value) == 'args' and len(st.value.keywords) == 1 and
+               st.value.keywords[0].arg is None and dotted(st.value.keywords[0].value) == 'kwargs',
+               'factory: (*args, **kwargs) shape')
+
+    def cust_loop(st, var, iter_ok):
+        expect(isinstance(st, ast.For) and isinstance(st.target, ast.Name) and len(st.body) == 1
+               and isinstance(st.body[0], ast.Expr) and isinstance(st.body[0].value, ast.Call) and
+               dotted(st.body[0].value.func) == st.target.id and
+               [dotted(a) for a in st.body[0].value.args] == [var] and iter_ok(st.iter),
+               'factory: customisation loop shape')
+
+    b = body_of(make_of('eos/eve_obj/attribute/factory.py', 'AttrFactory'))
+    expect(len(b) == 2 and isinstance(b[1], ast.Return) and dotted(b[1].value) == 'attr',
+           'AttrFactory.make shape')
+    ctor_call(b[0], 'attr', 'Attribute')
+    b = body_of(make_of('eos/eve_obj/type/factory.py', 'TypeFactory'))
+    expect(len(b) == 3 and isinstance(b[2], ast.Return) and dotted(b[2].value) == 'item_type',
+           'TypeFactory.make shape')
+    ctor_call(b[0], 'item_type', 'Type')
+    cust_loop(b[1], 'item_type', lambda it: dotted(it) == 'cls._instance_funcs')
+    b = body_of(make_of('eos/eve_obj/effect/factory.py', 'EffectFactory'))
+    expect(len(b) == 4 and isinstance(b[3], ast.Return) and dotted(b[3].value) == 'effect',
+           'EffectFactory.make shape')
+    c = b[0]
+    expect(isinstance(c, ast.Assign) and dotted(c.targets[0]) == 'effect_class' and
+           isinstance(c.value, ast.Call) and dotted(c.value.func) == 'cls._class_id_map.get' and
+           [dotted(a) for a in c.value.args] == ['effect_id', 'Effect'],
+           'EffectFactory.make: class lookup (hashes effect_id)')
+    ctor_call(b[1], 'effect', 'effect_class', extra_first='effect_id')
+    cust_loop(b[2], 'effect', lambda it: isinstance(it, ast.Call) and
+              dotted(it.func) == 'cls._instance_id_map.get' and dotted(it.args[0]) == 'effect.id')
+
+
 def coq_list(items, indent='  '):
     if not items:
         return '[]'
@@ -585,6 +634,7 @@ def generate(repo):
     cls = find_class(tree, 'JsonCacheHandler')
     init_shape(cls)
     getter_shape(cls)
+    factory_shapes(repo)
     out = ['(* GENERATED by harness/tables_cache.py from eos/cache_handler/json_cache_handler.py',
            '   and the constructors of Type/Attribute/Effect/DogmaModifier/WarfareBuffTemplate',
            '   -- do not edit *)',
